@@ -9,6 +9,11 @@
 // loopback HTTP/SSE through a harness-owned reverse proxy that can hold, fail and cut the GET
 // response and the SSE stream, under the race detector.
 //
+// Layer C (layerc_test.go) is about the connections themselves: one or two real standbys behind
+// relays that let an old stream outlive the standby's reconnect on the active's side (half-open
+// peers, both orders of old-handler-exit and new-registration, two standbys behind one address,
+// reconnect storms), with changes pushed after every lifecycle step.
+//
 // The oracles are written from the property statement: (i) right after a completed full sync the
 // standby's table equals the snapshot the active served; (ii) the changes pushed while the stream
 // is connected are applied on the standby without loss, duplication or reordering; (iii) with the
@@ -56,11 +61,13 @@ const (
 
 func TestMain(m *testing.M) {
 	run = vk.Start("C13", "exploration")
-	run.Rule("layer A: histories over {add(i), update(i), delete(i) on the active (valid against its table, ids up to renaming), heartbeat, disconnect, reconnect(=full sync + attach)} executed on the real PushChange -> pending queue -> handleSSEData and the real GET handler -> performFullSync with an in-memory transport, in two delivery modes (immediate; one-step lag, where a heartbeat overtakes the queued change), exhaustively to the stated depth and by seeded random walks of 10-60 steps with random field-level updates and failed full syncs; the standby store and received-session map are judged after every step. layer B: seeded scenarios on a real active and standby (Start() on both) over loopback HTTP/SSE through a harness proxy: 1-4 connection cycles with changes before the snapshot, between snapshot and stream attach (gap), while connected (bursts of 1..1200 by 1-3 pushers, stalled link), while away, failed GETs/stream attaches, clean and aborted stream cuts (also mid-burst); clause (i) is judged when the stream request reaches the proxy, (ii) per connected interval from the push log / wire log / standby store log, (iii) at every settled point. non-trivial = layer A: distinct history with a delivered change or a full sync that had to change the standby's table; layer B: distinct observed scenario signature with at least one judged connected interval carrying obligated pushes")
+	run.Rule("layer A: histories over {add(i), update(i), delete(i) on the active (valid against its table, ids up to renaming), heartbeat, disconnect, reconnect(=full sync + attach)} executed on the real PushChange -> pending queue -> handleSSEData and the real GET handler -> performFullSync with an in-memory transport, in two delivery modes (immediate; one-step lag, where a heartbeat overtakes the queued change), exhaustively to the stated depth and by seeded random walks of 10-60 steps with random field-level updates and failed full syncs; the standby store and received-session map are judged after every step. layer B: seeded scenarios on a real active and standby (Start() on both) over loopback HTTP/SSE through a harness proxy: 1-4 connection cycles with changes before the snapshot, between snapshot and stream attach (gap), while connected (bursts of 1..1200 by 1-3 pushers, stalled link), while away, failed GETs/stream attaches, clean and aborted stream cuts (also mid-burst); clause (i) is judged when the stream request reaches the proxy, (ii) per connected interval from the push log / wire log / standby store log, (iii) at every settled point. non-trivial = layer A: distinct history with a delivered change or a full sync that had to change the standby's table; layer B: distinct observed scenario signature with at least one judged connected interval carrying obligated pushes. layer C (connection lifecycle): a real active, one or two real standbys (Start() on all) each behind its own relay that dials the active from a chosen loopback address (both standbys behind one address, or two addresses) and a harness witness stream from a third address; the relay ends the standby's side of a stream (EOF or reset) while the active's side is closed at once, or stays up and is still read, or stays up unread (half-open peer), and closes it later on command; it can hold the standby's next stream request until the old handler on the active has exited. Catalogue of opening episodes (scenario index mod 8: old stream outlives the new registration then goes; the same half-open with a burst in between; old handler gone before the new registration; natural order x3; two standbys one address x2; reconnect storm of 3-6 cuts with pushes in between; two standbys two addresses) followed by 2-8 random steps {cycle, close a lingering connection, close all, storm, burst}; after every step 1-5 (burst: 10-120) add/update/delete changes over <=4 session ids and a sentinel; clause (ii) is judged per standby and connected interval from the push log and the standby's store log, clause (iii) on every standby once the latest sentinel came through its stream. non-trivial (layer C) = distinct observed scenario signature with a judged push on a connection that began while another stream from the same address was registered")
 	run.Assume("a push is 'made while the stream is connected' iff PushChange was called after the harness observed IsConnected()==true for that stream and returned nil before the harness asked the proxy to cut it; 'lost' is decided without a clock: a later push (sentinel) has been applied through the same FIFO stream")
 	run.Assume("the proxy's copy of the SSE stream (wire log) and the captured zap warnings are used only to name the witness class (where the message disappeared), never to decide a violation")
 	run.Assume("reconnect back-off is shortened through a verif hook (fields backoff/backoffMin/backoffMax); RequestTimeout is set above the scenario length (http.Client.Timeout also bounds the SSE stream)")
 	run.Assume("wall-clock time appears only in watchdogs and in re-push timers of the sentinel; both lead to inconclusive, never to a verdict")
+	run.Assume("layer C: a standby's stream is 'connected' for the harness from the moment the relay has the active's 200 for a stream request issued after the previous interval ended AND the standby's IsConnected() is true, until the harness cuts it or either side ends it; 'the handler of an old stream has exited' is read from the active's own Info log line (sequencing and evidence counters only, never a verdict)")
+	run.Assume("layer C, verdict 'a connected stream receives nothing' is decided on logical progress and state, not on time: after two sentinels met an idle standby a further one is pushed; the witness stream has received it and K>=25 heartbeats after it (K*interval >= 2.5 s nominal); the active's pending queue and every channel of its client table are empty (verif hook VerifC13SSEClientBacklog: no handler is lagging); the stream is up on both sides; and since before that sentinel was pushed no byte has arrived on the stream's upstream connection (kernel counter tcpi_bytes_received, self-checked per scenario), no event was relayed, the standby applied nothing; all of it observed twice, K heartbeats apart. Anything less is inconclusive")
 	debug.SetGCPercent(800)
 	if child {
 		go watchdog()
@@ -77,6 +84,14 @@ func TestMain(m *testing.M) {
 	run.Floor("B_intervals_judged", 30)
 	run.Floor("B_obligated_pushes_judged", 500)
 	run.Floor("B_convergence_points_judged", 30) // the race runtime makes collections expensive; the cases are small and short-lived
+	run.Floor("C_overlapping_stream_episodes", 60)
+	run.Floor("C_old_handler_exit_after_new_registration", 50)
+	run.Floor("C_new_stream_registered_after_old_handler_exit", 15)
+	run.Floor("C_pushes_delivered_after_old_handler_exit", 300)
+	run.Floor("C_obligated_pushes_judged", 1000)
+	run.Floor("C_convergence_points_judged", 200)
+	run.Floor("C_storm_reconnects", 50)
+	run.Floor("C_scenarios_two_standbys_one_address", 8)
 	go watchdog()
 	code := m.Run()
 	flushViolations()
